@@ -123,4 +123,23 @@ def polyFixedFull (child : Poly → List Row) (p : Poly) (fixed : Option (List (
 def truncateInit (n : Int) (byEnergy agg : Bool) (childRows : List ORow) : Except Unit (List ORow) :=
   if n < 1 then .error () else .ok (truncateComposite n.toNat byEnergy agg childRows)
 
+/-! ## `ExactSolver.sample` / `ExactPolySolver.sample_poly` as coded -/
+
+/-- value a gray-code bit stands for: `samples = 2*samples - 1` for SPIN -/
+def bitVal (spin : Bool) (b : Nat) : Rat := if spin then 2 * (b : Rat) - 1 else (b : Rat)
+
+/-- `if not len(bqm.variables): return` an empty sample set; otherwise the `_graycode` rows (converted for SPIN) under
+    `list(bqm.variables)` (`vars`: an input — for a polynomial it is the iteration order of a set) with the energies
+    `from_samples_bqm` computes from the problem (`energy`) -/
+def exactRows (spin : Bool) (vars : List Label) (energy : (Label → Rat) → Rat) : List Row :=
+  if vars.length = 0 then []
+  else (graycode vars.length).map fun bits =>
+    ⟨vars.zip (bits.map (bitVal spin)), energy (assignVal (vars.zip (bits.map (bitVal spin))))⟩
+
+/-- `ExactPolySolver.sample_poly(polynomial)` = `ExactSolver().sample(polynomial)` -/
+def exactPolySolver (spin : Bool) (vars : List Label) (p : Poly) : List Row := exactRows spin vars (fun x => polyEnergy x p)
+
+/-- `ExactSolver.sample(bqm)` -/
+def exactBqmSolver (vars : List Label) (m : Bqm) : List Row := exactRows m.spin vars m.energy
+
 end Enum
